@@ -70,7 +70,17 @@ def main(argv=None):
     t0 = time.time()
     from .selftest import selftest
     selftest()                       # a wrong oracle must fail here, not alarm on the library
-    acc, meta = mod.run(a.tier, a.seed)
+    try:
+        acc, meta = mod.run(a.tier, a.seed)
+    except Exception:  # noqa: BLE001
+        if os.environ.get("VERIF_STRICT"):
+            raise
+        import traceback
+        acc, meta = kernel.Acc(), {"rule": "run aborted by an exception escaping from a library call", "exhaustive": False,
+                                   "caps_hit": ["aborted"], "sample": "aborted"}
+        acc.violation("unexpected_exception_in_library_call", {"stage": "main process"},
+                      {"traceback_tail": traceback.format_exc()[-1500:]})
+        acc.counts["states"] = 1; acc.counts["transitions"] = 1
     wall = time.time() - t0
 
     new_paths = []
